@@ -6,11 +6,12 @@
    simulation clause (by induction on the step), the free-input clause and the io-map shape of the closed form, and that
    `run` is the unique run.  `C09_model_is_closed_form` / `C09_seq_model_is_closed_form` link the API-level models to
    the closed forms (graph and io-map equality whenever the model returns), so `C09_unroll_partial` and
-   `C09_sequential_unroll_partial` are about the models themselves.  Not proved, decided per case by Run_C09.agree/holds:
-   `C09_total_full` (the model returns inside the guards), and for sequential circuits the
-   step from the stripped circuit to the flop circuit itself (`C09_sequential_unroll_full`). *)
+   `C09_sequential_unroll_partial` are about the models themselves.  Inside the guards the model returns (`C09_total`) and its
+   result is lint-clean, so `C09_unroll` is the unroll clause of the property about the API-level model with nothing left to the
+   per-case oracle.  Not proved, decided per case by Run_C09.agree/holds: for sequential circuits that the model returns,
+   and the step from the stripped circuit to the flop circuit itself (`C09_sequential_unroll_full`). *)
 From stdpp Require Import strings gmap sets fin_sets.
-From CG Require Import Base.Oracle Model.Unroll Model.Lint Proofs.UnrollProofs Proofs.UnrollLink.
+From CG Require Import Base.Oracle Model.Unroll Model.Lint Proofs.UnrollProofs Proofs.UnrollLink Proofs.UnrollTotal Proofs.UnrollModelTotal.
 Open Scope string_scope.
 
 (* the node the map gives for io o at step t carries the value obtained by running c for t+1 steps, the initial state
@@ -89,7 +90,7 @@ Print Assumptions C09_seq_model_is_closed_form.
 (* --- the property about the models (DESIGN.md C09_unroll): what `unroll C n sio prefix` returns has the io map
        io_map[o][t] = <o>_<prefix>_<t>, free inputs = step-0 state inputs + per-step copies of the other inputs, and every
        consistent valuation carries at io_map[o][t] the value of running c for t+1 steps.  Missing for the unconditional
-       statement: `C09_total_full` (the model does return). --- *)
+       statement: nothing (see C09_unroll below). --- *)
 Theorem C09_unroll_partial : ∀ C n sio prefix U m,
   lint_clean C → closed (c_g C) → acyclic (c_g C) → free_are_inputs (c_g C) →
   sio_ok (c_g C) sio → unroll_names_ok (c_g C) n sio prefix →
@@ -119,10 +120,34 @@ Theorem C09_sequential_unroll_partial : ∀ C n d q ign afo iv ru prefix U m CS 
 Proof. exact seq_spec. Qed.
 Print Assumptions C09_sequential_unroll_partial.
 
-(* --- what is NOT proved (visible; decided per case by Run_C09) --- *)
-Definition C09_total_full : Prop := ∀ C n sio prefix,
-  lint_clean C → bb_free C → closed (c_g C) → acyclic (c_g C) → 1 ≤ n → sio_ok (c_g C) sio → unroll_names_ok (c_g C) n sio prefix →
+(* --- TOTALITY: inside the guards every call of the construction API made by `unroll` is accepted, so it returns --- *)
+Theorem C09_total : ∀ C n sio prefix,
+  lint_clean C → c_bbs C = ∅ → plain (c_g C) → valid_names (c_g C) → 1 ≤ n →
+  sio_ok (c_g C) sio → unroll_names_ok (c_g C) n sio prefix →
   ∃ U m, unroll C n sio prefix = Ok (U, m).
+Proof. exact unroll_total. Qed.
+Print Assumptions C09_total.
+
+(* --- C09 for tx.unroll about the API-level model, unconditionally inside the guards (DESIGN.md C09_unroll): the model returns a
+       lint-clean circuit and an io map with io_map[o][t] = <o>_<prefix>_<t>; its free inputs are exactly the step-0 state
+       inputs and the per-step copies of the other inputs; every consistent valuation carries at io_map[o][t] the value of
+       running c for t+1 steps.  Guards: `plain` (no bb_input / bb_output typed node), `valid_names`, `free_are_inputs` (no x
+       constant), `sio_ok` (state outputs are outputs, state inputs distinct inputs), dot-free prefix, `unroll_names_ok`. --- *)
+Theorem C09_unroll : ∀ C n sio prefix,
+  lint_clean C → c_bbs C = ∅ → closed (c_g C) → acyclic (c_g C) → plain (c_g C) → valid_names (c_g C) → free_are_inputs (c_g C) →
+  1 ≤ n → has_dot prefix = false → sio_ok (c_g C) sio → unroll_names_ok (c_g C) n sio prefix →
+  ∃ U m, unroll C n sio prefix = Ok (U, m) ∧
+    c_bbs U = ∅ ∧ lint_clean U ∧ dom m = io_of (c_g C) ∧
+    (∀ x, x ∈ inputs (c_g U) ↔ ∃ t io, t < n ∧ io ∈ inputs (c_g C) ∧ x = io_name io prefix t ∧ (state_src sio io = None ∨ t = 0)) ∧
+    ∀ w, consistent (c_g U) w →
+      let st := λ v, w (io_name v prefix 0) in
+      let ins := λ t i, w (io_name i prefix t) in
+      ∀ o t, o ∈ io_of (c_g C) → t < n →
+        m !! o ≫= (.!! t) = Some (io_name o prefix t) ∧ w (io_name o prefix t) = run (c_g C) sio t st ins o.
+Proof. exact unroll_correct. Qed.
+Print Assumptions C09_unroll.
+
+(* --- what is NOT proved (visible; decided per case by Run_C09) --- *)
 (* the closed form passes lint, hence so does whatever `unroll` returns *)
 Theorem C09_result_lint_clean : ∀ C n sio prefix nm,
   lint_clean C → c_bbs C = ∅ → startpoints (c_g C) = inputs (c_g C) → has_dot prefix = false →
@@ -167,6 +192,16 @@ Proof.
   split; [apply (bool_decide_unpack _); vm_compute; reflexivity|].
   split; [apply (bool_decide_unpack _); vm_compute; reflexivity|].
   apply (bool_decide_unpack _); vm_compute; reflexivity.
+Qed.
+Example C09_ex_guards : lint_clean ex_C ∧ plain ex_c ∧ valid_names ex_c ∧ sio_ok ex_c [("o", "s")] ∧ unroll_names_ok ex_c 2 [("o", "s")] "cg_unroll".
+Proof.
+  split; [vm_compute; reflexivity|]. split; [|split; [|split]].
+  - change (map_Forall (λ (_ : string) i, n_ty i ≠ BbIn ∧ n_ty i ≠ BbOut ∧ n_ty i ≠ Unsup ∧ n_ty i ≠ NoTy) ex_c).
+    apply (bool_decide_unpack _). vm_compute. reflexivity.
+  - change (set_Forall (λ n : string, n ≠ "" ∧ starts_digit n = false) (dom ex_c)).
+    apply (bool_decide_unpack _). vm_compute. reflexivity.
+  - apply (bool_decide_unpack _). vm_compute. reflexivity.
+  - apply unroll_names_okb_spec. vm_compute. reflexivity.
 Qed.
 Example C09_ex_model_is_closed_form :
   unroll ex_C 2 [("o", "s")] "cg_unroll" =
